@@ -23,7 +23,7 @@ INFO = {
     'outside': ['more concurrent calls than the bound', 'forwarder replies arriving for the wrong command'],
     'assumptions': ['ideal hash for the parameters digest and DigestSha256 signature', 'virtual-time loop'],
 }
-MANDATORY = {'reg_v2': ['one-command-per-call', 'success-iff-200'], 'response': ['response-roundtrip']}
+MANDATORY = {'command': ['command-carries-parameters'], 'reg_v2': ['one-command-per-call', 'success-iff-200'], 'response': ['response-roundtrip']}
 
 CP_SCHEMA = None
 CLOCK_LOG = []          # (function that read the clock, reading, virtual instant) of the current path
@@ -142,13 +142,25 @@ def _len_bytes(n):
     return [n] if n <= 0xFC else [0xFD] + list(n.to_bytes(2, 'big'))
 
 
+def _prefix(eng, spec, i):
+    """a prefix as component list: URI string, or 'SYM' = one generic component with one symbolic value byte"""
+    import ndn.encoding as enc
+    if spec in ('SYM', 'SYM4'):
+        b = eng.bytes('pfx%d' % i, 1)
+        if spec == 'SYM4':
+            # registration keeps the prefix as a dictionary key (hashed: one path per value): four boundary values
+            eng.assume(Or(b[0] == 0, b[0] == 0x2f, b[0] == 0x61, b[0] == 0xff))
+        return [bwrap([8, 1] + blist(b))]
+    return [bytes(c) for c in enc.Name.from_str(spec)]
+
+
 def scenario(eng, case, front):
     import ndn.encoding as enc
     import ndn.types as types
     K = case['K']
     kinds = case['kinds']
     ops = case['ops']                    # 'register' / 'unregister' per call
-    prefixes = ['/px%d' % i for i in range(K)]
+    prefixes = [_prefix(eng, p, i) for i, p in enumerate(case.get('prefixes') or ['/px%d' % i for i in range(K)])]
     state = {'outstanding': 0, 'max_out': 0, 'replies': 0}
     results = [None] * K
     cmds = []
@@ -251,8 +263,7 @@ def scenario(eng, case, front):
         pfx = cmd['prefix']
         which = None
         for i, p in enumerate(prefixes):
-            if pfx is not None and [bytes(bwrap(c)) if not isinstance(c, bytes) else c for c in pfx] == \
-                    [bytes(c) for c in enc.Name.from_str(p)]:
+            if pfx is not None and env.names_equal(pfx, p):
                 which = i
         eng.check(which is not None and which not in served, 'command-names-the-prefix', {'idx': idx})
         if which is not None:
@@ -409,6 +420,65 @@ def h_response(eng, case):
     eng.reach('end')
 
 
+CP_UINTS = ['face_id', 'origin', 'cost', 'flags', 'expiration_period', 'mask', 'capacity', 'count', 'mtu']
+
+
+def h_command(eng, case):
+    """make_command_v2 / make_command: every control parameter handed in is in the command, with its value"""
+    from ndn.app_support import nfd_mgmt as m
+    import ndn.encoding as enc
+    schema = mg.schema_of(m.ControlParametersValue)
+    kwargs = {}
+    shape = case['name']
+    if shape is not None:
+        kwargs['name'] = [bwrap([8, k] + blist(eng.bytes('n%d' % i, k))) for i, k in enumerate(shape)]
+    for f in case['fields']:
+        kwargs[f] = eng.int(f, 0, 2 ** 64 - 1)
+    if case.get('uri'):
+        kwargs['uri'] = mg.TEXTS[eng.choice(len(mg.TEXTS), 'uri')]
+    if case.get('strategy'):
+        kwargs['strategy'] = [bwrap([8, 1] + blist(eng.bytes('s', 1)))]
+    env.set_clock(lambda: eng.int('clock', 0, 2 ** 63))
+    env.set_nonce(lambda: eng.int('nonce32', 1, 2 ** 32 - 1), lambda: eng.int('nonce64', 2 ** 32, 2 ** 64 - 1))
+    try:
+        if case['legacy']:
+            name = m.make_command(case['module'], case['verb'], **kwargs)
+        else:
+            name = m.make_command_v2(case['module'], case['verb'], **kwargs)
+    except Exception as e:
+        eng.fail('command-carries-parameters', exc_sig(e), repr(e)[:120])
+        return
+    eng.check(len(name) == (9 if case['legacy'] else 5), 'command-name', {'components': len(name)})
+    head = [bytes(c) for c in enc.Name.from_str('/localhost/nfd/%s/%s' % (case['module'], case['verb']))]
+    eng.check(env.names_equal(list(name[:4]), head), 'command-name')
+    cp = blist(name[4])
+    try:
+        c = ref.rd_seq(cp, 0, len(cp))[0]
+        body = cp[c.vs:c.ve]
+        o = ref.outer(body, 0x68)
+        vals = ref.decode_model(body, o.vs, o.ve, mg.ref_schema(schema), True)
+    except (ref.RefReject, IndexError) as e:
+        eng.fail('command-carries-parameters', 'undecodable-parameters:%r' % (e.args[:1],))
+        return
+    for k, v in kwargs.items():
+        g = vals.get(k)
+        if k == 'name':
+            eng.check(g is not None and env.names_equal(g, v), 'command-carries-parameters', sig='name')
+        elif k == 'strategy':
+            eng.check(g is not None and g.get('name') is not None and env.names_equal(g['name'], v),
+                      'command-carries-parameters', sig='strategy')
+        elif k == 'uri':
+            eng.check(g is not None and (g == v if isinstance(g, str) else beq(g, v.encode())), 'command-carries-parameters',
+                      sig='uri')
+        else:
+            eng.check(g is not None and g == v, 'command-carries-parameters', {'field': k}, sig=k)
+    for k in vals:
+        if not k.startswith('#'):
+            eng.check(k in kwargs, 'command-carries-parameters', {'extra': k}, sig='parameter-not-given:' + k)
+    eng.observe('cp', cp)
+    eng.reach('end')
+
+
 def _same(a, b):
     if a is None or b is None:
         return a is None and b is None
@@ -417,7 +487,7 @@ def _same(a, b):
     return a == b
 
 
-HARNESSES = {'reg_v2': h_reg_v2, 'reg_v1': h_reg_v1, 'autoreg': h_autoreg, 'response': h_response}
+HARNESSES = {'command': h_command, 'reg_v2': h_reg_v2, 'reg_v1': h_reg_v1, 'autoreg': h_autoreg, 'response': h_response}
 
 ALL = ['ok', 'status', 'nack', 'silence', 'garbage', 'badsig']
 
@@ -443,6 +513,24 @@ def cases(tier, seed):
                    {'weight': 200, 'split_depth': 4}))
         cs.append(('reg_v2', {'K': 3, 'ops': ['register'] * 3, 'kinds': [['ok', 'nack'], ['ok', 'silence'], ['ok']]},
                    {'weight': 200, 'split_depth': 5}))
+    # all prefixes: the root prefix, a zero-length component, one symbolic component (single call, forwarder says ok / 400)
+    for pf in ('/', 'SYM', '/a/b/c'):
+        for op in ('register', 'unregister'):
+            cs.append(('reg_v2', {'K': 1, 'ops': [op], 'kinds': [['ok', 'status']],
+                                  'prefixes': ['SYM4' if pf == 'SYM' and op == 'register' else pf]}, {'weight': 10}))
+            if pf != 'SYM':
+                cs.append(('reg_v1', {'K': 1, 'ops': [op], 'kinds': [['ok']], 'prefixes': [pf]}, {'weight': 30}))
+    # the command builder itself, for all values of the control parameters
+    for legacy in (False, True):
+        for name in (None, [], [1], [0, 2]):
+            for fields in ([], ['face_id'], ['origin', 'cost'], ['flags', 'expiration_period'], ['mask', 'capacity', 'count', 'mtu']):
+                if legacy and (len(fields) > 2 or name == [0, 2]):
+                    continue
+                cs.append(('command', {'legacy': legacy, 'module': 'rib', 'verb': 'register', 'name': name, 'fields': fields}))
+        cs.append(('command', {'legacy': legacy, 'module': 'faces', 'verb': 'create', 'name': None, 'fields': ['face_persistency'],
+                               'uri': True}))
+        cs.append(('command', {'legacy': legacy, 'module': 'strategy-choice', 'verb': 'set', 'name': [1], 'fields': [],
+                               'strategy': True}))
     for front in ('v2', 'v1'):
         for n in (1, 2):
             cs.append(('autoreg', {'front': front, 'routes': n}, {'weight': 10 if front == 'v2' else 200,
